@@ -287,8 +287,10 @@ func (w *World) projReporter() Rec {
 		t := Rec{"amt": NumInt(tr.Amount)}
 		if tr.Expiration != nil {
 			t["exp"] = ms(*tr.Expiration)
+			t["expn"] = nsNum(*tr.Expiration)
 		} else {
 			t["exp"] = Num{}
+			t["expn"] = Num{}
 		}
 		r["tracker"] = t
 	}
